@@ -263,6 +263,21 @@ theorem csc_straight_eq (m2p : α → α) (w : Word) (hw : isCSC w = true) (d al
 example (m2p : α → α) (d a b : α) (P : Path α) (h : solve m2p .LSL d a b = some P) : P.w = .LSL :=
   (csc_straight_eq m2p .LSL rfl d a b P h).1
 
+/-- [AF] **outside its two fudge bands the code's `mod2pi` IS the exact normalisation** (`x - 2π·floor(x / 2π)`).  The reach theorems of
+`Props/C14.lean` / `C14W.lean` assume an angle normalisation that is exact modulo 2π at every argument (`Exact m2p`), which the code's
+`mod2pi` is not: it sends `(DUBINS_ZERO, 0)` and the top `DUBINS_EPS/2` of `[0, 2π)` to 0.  This is the pointwise link: at every argument
+where neither test fires the two agree (and `mod2pi_fudge_bound` bounds the deviation by `DUBINS_EPS/2` where one does). -/
+theorem mod2pi_eq_exact_off_fudge (x : α) (h1 : ¬ (x < 0 ∧ dzero < x)) (h2 : ¬ (twopi - mod2piExact x < half * eps)) :
+    mod2pi x = mod2piExact x := by
+  unfold mod2pi mod2piExact at *
+  simp only [h1, if_false]
+  simp only [h2, if_false]
+
+example (x : α) (h1 : ¬ (x < 0 ∧ dzero < x)) (h2 : twopi - mod2piExact x < half * eps) : mod2pi x = 0 := by
+  unfold mod2pi mod2piExact at *
+  simp only [h1, if_false]
+  simp only [h2, if_true]
+
 end CSC
 
 /-! ## [EX] the statements discriminate: variants without the scratch object / with a reordered write break exactly when `state == from` -/
